@@ -116,6 +116,33 @@ def fd_case():
     finally:
         shutil.rmtree(d, ignore_errors=True)
 
+def many_case():
+    """More than a thousand subpaths on one owner rank, each written in two passes (append off): every file holds both lines."""
+    d = os.path.join(BUILD, 'io', 'c19-many-%d' % os.getpid())
+    shutil.rmtree(d, ignore_errors=True)
+    os.makedirs(os.path.join(d, 'out'))
+    try:
+        exe, err = compile_sim('io', ['harness/io.cpp'])
+        if exe is None:
+            return []
+        nsub = 1100
+        ops = ['w 0 m/%04d first-%d' % (k, k) for k in range(nsub)] + ['w 0 m/%04d second-%d' % (k, k) for k in range(nsub)]
+        hist = os.path.join(d, 'hist.txt')
+        open(hist, 'w').write('\n'.join(ops) + '\n')
+        r = simrun(exe, 1, ['multi', os.path.join(d, 'out', 'pre'), hist, 64, 0], seed=1, wall=120)
+        bad = []
+        for k in range(nsub):
+            p = os.path.join(d, 'out', 'pre', 'm', '%04d' % k)
+            got = sorted(open(p).read().split('\n')[:-1]) if os.path.exists(p) else None
+            if got != sorted(['first-%d' % k, 'second-%d' % k]):
+                bad.append((k, got))
+        if r['verdict'] != 'ok' or bad:
+            return [{'what': '%d subpaths on one rank, each written twice (two passes, append off): %d files do not hold exactly their two lines%s; first: subpath m/%04d holds %s' % (
+                nsub, len(bad), '' if r['verdict'] == 'ok' else ' (run ended with %s)' % r['verdict'], bad[0][0] if bad else 0, bad[0][1] if bad else None), 'cmd': r['cmd']}]
+        return []
+    finally:
+        shutil.rmtree(d, ignore_errors=True)
+
 def run(tier, seed, replay=None):
     def explore(seed_, count):
         rng = random.Random(seed_ * 7907 + 3)
@@ -127,6 +154,7 @@ def run(tier, seed, replay=None):
         results = explore(seed, 36 if tier == 'quick' else 600)
         fails = [f for r in results for f in r.get('fails', [])]
         known = []
+        fails += many_case()
         for f in fd_case():
             k = [x for x in load_known() if x.get('status') == 'known' and x.get('property') == 'C19' and x.get('signature') and x['signature'] in f['what']]
             if k:
